@@ -105,6 +105,19 @@ func TestCheck(t *testing.T) {
 				}
 			}
 		}
+		if i%4 == 1 {
+			// a transient host failure in the warm participant's past: the first request for the next
+			// instance's committee fails once (consumed by a throw-away validation below); every later
+			// verdict must be what a participant that never saw the failure gives
+			warm.Host.CommitteeOutage = map[uint64]int{cur.ID + 1: 1}
+			for _, it := range corpus {
+				if it.m.Vote.Instance == cur.ID+1 {
+					_, _ = warm.P.ValidateMessage(context.Background(), it.m)
+					run.Count("transient_committee_outages_primed", 1)
+					break
+				}
+			}
+		}
 		// warm history: shuffled, some presented twice
 		order := rng.Perm(len(corpus))
 		order = append(order, order[:len(order)/3]...)
